@@ -93,7 +93,12 @@ impl<'a> Gen<'a> {
             }
             _ => {
                 if self.r.chance(1, 3) {
-                    let n = if self.r.chance(1, 6) { self.r.range(1, 70) } else { self.r.range(1, 3) };
+                    let n = if self.r.chance(1, 6) {
+                        // (now and then longer than one, two and three 64-byte blocks)
+                        if self.r.chance(1, 3) { self.r.range(60, 210) } else { self.r.range(1, 70) }
+                    } else {
+                        self.r.range(1, 3)
+                    };
                     for _ in 0..n {
                         let c = *self.r.pick(&[b' ', b' ', b' ', b'\n', b'\t', b'\r']);
                         self.out.push(c);
